@@ -11,6 +11,9 @@ import (
 type HeaderOnceResponseWriter struct {
 	w           http.ResponseWriter
 	wroteHeader bool
+	// defaultCode 非零时，若在写入正文或刷新前尚未写过状态码，则先写入该状态码，
+	// 而不是让底层编写器隐式写入 200。
+	defaultCode int
 }
 
 // NewHeaderOnceResponseWriter 返回一个 HeaderOnceResponseWriter。
@@ -18,11 +21,18 @@ func NewHeaderOnceResponseWriter(w http.ResponseWriter) http.ResponseWriter {
 	return &HeaderOnceResponseWriter{w: w}
 }
 
+// NewHeaderOnceResponseWriterWithCode 返回一个 HeaderOnceResponseWriter，
+// 若调用方未显式写入状态码就写入正文（或刷新），则以 defaultCode 作为状态码。
+func NewHeaderOnceResponseWriterWithCode(w http.ResponseWriter, defaultCode int) http.ResponseWriter {
+	return &HeaderOnceResponseWriter{w: w, defaultCode: defaultCode}
+}
+
 func (w *HeaderOnceResponseWriter) Header() http.Header {
 	return w.w.Header()
 }
 
 func (w *HeaderOnceResponseWriter) Write(bytes []byte) (int, error) {
+	w.writeDefaultCode()
 	return w.w.Write(bytes)
 }
 
@@ -47,7 +57,14 @@ func (w *HeaderOnceResponseWriter) Hijack() (net.Conn, *bufio.ReadWriter, error)
 
 // Flush 发送缓冲数据到客户端。
 func (w *HeaderOnceResponseWriter) Flush() {
+	w.writeDefaultCode()
 	if flusher, ok := w.w.(http.Flusher); ok {
 		flusher.Flush()
+	}
+}
+
+func (w *HeaderOnceResponseWriter) writeDefaultCode() {
+	if w.defaultCode != 0 {
+		w.WriteHeader(w.defaultCode)
 	}
 }
